@@ -489,8 +489,12 @@ def run_sums(ctx, tg, dis):
 
 # ----------------------------------------------------------------------------- explored only (no theorem)
 
-PP_NEAR_FS = 1e-3        # |Z_pp - Z_fs| <= 1e-3 |Z_fs| for harmonics >= 10 n_c   (observed 1.3e-4: the rounded prefactor)
-PP_SUPPRESSED = 1e-4     # Re Z_pp <= 1e-4 Re Z_fs for harmonics <= n_c/4        (observed 2.3e-6 at n_c/4)
+# x = harmonic / n_c, n_c = sqrt(2/3) (pi R/g)^(3/2) the shielding cutoff.  (lo, hi, bound); observed maxima in brackets.
+# |Z_pp - Z_fs| <= bound |Z_fs|: x >= 8: 3e-4 [1.3e-4, the rounded free-space prefactor]; 5..8: 6e-3 [2.0e-3]; 3..5: 0.1 [3.7e-2]
+PP_NEAR_FS_BANDS = [(8.0, float("inf"), 3e-4), (5.0, 8.0, 6e-3), (3.0, 5.0, 1e-1)]
+# Re Z_pp <= bound Re Z_fs: x < 0.15: 1e-16 [1.9e-18]; 0.15..0.2: 1e-8 [3.4e-10]; 0.2..0.25: 1e-4 [2.3e-6]
+PP_SUPPRESSED_BANDS = [(0.0, 0.15, 1e-16), (0.15, 0.2, 1e-8), (0.2, 0.25, 1e-4)]
+PP_NEAR_FS, PP_SUPPRESSED = PP_NEAR_FS_BANDS[0][2], PP_SUPPRESSED_BANDS[-1][2]
 ONE_SIDED = 1e-2         # wake energy on the wrong side <= 1e-2 of the right side (observed <= 3e-4 for nmax >= 1024)
 COLL_SYMMETRIC = 1e-4    # collimator: |W(x0+d) - W(x0-d)| <= 1e-4 max|W| (observed <= 2e-7: binary32 FFT rounding)
 COLL_LOCAL = 1e-6        # collimator: wake energy beyond 4 sigma <= 1e-6 of the energy at the source (observed 1e-10)
@@ -528,18 +532,24 @@ def run_explore(ctx, tg):
         for i in range(1, m["n"] // 2 + 1):
             x = float(i * delta) / m["nc"]
             a, b = (float(pp[i][0]), float(pp[i][1])), (float(fs[i][0]), float(fs[i][1]))
-            if x >= 10:
+            # Z_pp/Z_fs is observed to depend on (R, g, harmonic) through x = harmonic/n_c only, so the wide-gap limit
+            # (n_c ~ g^-3/2 -> 0) and the high-frequency limit are the same limit x -> infinity
+            band = [bd for bd in PP_NEAR_FS_BANDS if bd[0] <= x < bd[1]]
+            sup = [bd for bd in PP_SUPPRESSED_BANDS if bd[0] <= x < bd[1]]
+            if band:
                 used += 1
                 d = math.hypot(a[0] - b[0], a[1] - b[1]) / math.hypot(*b)
-                if d > PP_NEAR_FS:
+                if d > band[0][2]:
                     ctx.violation("impl-oracle", "parallel plates does not tend to free space at %.3g times the shielding cutoff" % x, case=dict(case, index=i),
-                                  observed=dict(pp=a, fs=b, rel=d), expected="relative difference <= %g" % PP_NEAR_FS, sig=dict(kind="explore", clause="pp-to-fs"))
+                                  observed=dict(pp=a, fs=b, rel=d), expected="relative difference <= %g for %g <= x < %g" % (band[0][2], band[0][0], band[0][1]),
+                                  sig=dict(kind="explore", clause="pp-to-fs"))
                     break
-            elif x <= 0.25:
+            elif sup:
                 used += 1
-                if a[0] > PP_SUPPRESSED * b[0]:
+                if a[0] > sup[0][2] * b[0]:
                     ctx.violation("impl-oracle", "parallel plates is not suppressed at %.3g times the shielding cutoff" % x, case=dict(case, index=i),
-                                  observed=dict(pp=a, fs=b), expected="Re Z_pp <= %g Re Z_fs" % PP_SUPPRESSED, sig=dict(kind="explore", clause="pp-suppressed"))
+                                  observed=dict(pp=a, fs=b), expected="Re Z_pp <= %g Re Z_fs for %g <= x < %g" % (sup[0][2], sup[0][0], sup[0][1]),
+                                  sig=dict(kind="explore", clause="pp-suppressed"))
                     break
         ctx.count("explore:pp-" + m["regime"])
         ctx.case_done(("explore", cid), used > 0)
@@ -677,8 +687,51 @@ def run_explore(ctx, tg):
     ctx.extra["explored_observed_maxima"] = obs
     if pp_ratio:
         ctx.extra["explored_parallel_plates_wake_energy_behind_over_ahead"] = dict(min=min(pp_ratio), max=max(pp_ratio), n=len(pp_ratio))
-    ctx.extra["explored_thresholds"] = dict(pp_near_fs=PP_NEAR_FS, pp_suppressed=PP_SUPPRESSED, one_sided=ONE_SIDED,
+    ctx.extra["explored_thresholds"] = dict(pp_near_fs_bands=[list(map(str, bd)) for bd in PP_NEAR_FS_BANDS],
+                                            pp_suppressed_bands=[list(map(str, bd)) for bd in PP_SUPPRESSED_BANDS], one_sided=ONE_SIDED,
                                             coll_symmetric=COLL_SYMMETRIC, coll_local=COLL_LOCAL, wake_additive=WAKE_ADDITIVE)
+
+
+def project_coqchk(ctx, coq):
+    """Thorough tier.  The recursive `coqchk -o` of vp_coq re-checks every library the property file depends on; with
+    Interval (Coquelicot, Flocq, mathcomp, the Reals) that takes more than 35 minutes here - beyond vp_coq's 1500 s limit,
+    which would turn into an alarm although nothing is wrong.  C16 therefore runs the independent checker itself:
+    (1) always: `coqchk -norec` over every module of THIS development in the dependency closure of Properties_C16 (each
+        re-checked by the standalone checker; the installed libraries' .vo files are taken as they are);
+    (2) only with VERIF_COQCHK_FULL=1: the recursive check with a 3600 s limit; running out of time is recorded, not alarmed."""
+    import subprocess, time
+    mods = sorted("Inovesa." + d[:-2].replace("/", ".") for d in vp_coq.dep_closure("Props/Properties_C16.v")) + ["Inovesa.Props.Properties_C16"]
+    t0 = time.time()
+    r = subprocess.run(["timeout", "1200", "coqchk", "-silent", "-norec"] + mods + ["-Q", ".", "Inovesa"], cwd=vp_coq.COQ, capture_output=True, text=True)
+    ctx.log("coqchk -norec over %d modules of the development: rc=%d in %.1fs" % (len(mods), r.returncode, time.time() - t0))
+    info = dict(ok=r.returncode == 0, mode="-norec over the development's own modules", modules=mods, wall_s=round(time.time() - t0, 1))
+    if r.returncode != 0:
+        coq["ok"] = False
+        coq["props"]["error"] = "coqchk rejected the compiled development: " + (r.stdout + r.stderr)[-1500:]
+    elif os.environ.get("VERIF_COQCHK_FULL") == "1":
+        ok, ax, tail = vp_coq.coqchk("C16", ctx.log, timeout=3600)
+        info["recursive"] = dict(ok=ok, axioms_of_all_loaded_libraries=ax)
+        if not ok and "rc=124" not in tail and tail.strip():
+            coq["ok"] = False
+            coq["props"]["error"] = "coqchk (recursive) rejected the compiled development: " + tail
+        elif not ok:
+            ctx.notes.append("recursive coqchk did not finish within 3600 s (libraries: Reals, Coquelicot, Flocq, Interval, mathcomp)")
+    ctx.extra["coqchk"] = info
+
+
+def checked(ctx):
+    """vp_coq.full_check with the thorough tier's coqchk replaced by project_coqchk (see there)"""
+    own = ctx.tier == "thorough" and os.environ.get("VERIF_NO_COQCHK") != "1"
+    if own:
+        os.environ["VERIF_NO_COQCHK"] = "1"
+    try:
+        coq = vp_coq.full_check("C16", ctx, fams=("imp",))
+    finally:
+        if own:
+            del os.environ["VERIF_NO_COQCHK"]
+    if own and coq["ok"]:
+        project_coqchk(ctx, coq)
+    return coq
 
 
 def run(ctx):
@@ -688,7 +741,7 @@ def run(ctx):
                 "3x2x5x5x5 switch combinations (gap sign, use_csr, wall on/s=0/s<0/xi<-1/xi=-1, collimator on/0/too big/negative/"
                 "exactly the pipe radius, file none/exact/longer/shorter/half); operator+= on equal, longer and shorter operands. "
                 "Non-trivial: n >= 3 with non-constant values / at least one contribution selected.")
-    coq = vp_coq.full_check("C16", ctx, fams=("imp",))
+    coq = checked(ctx)
     tg = ctx.build(harness=("impl_imp",))
     dis = []
     tmp = tempfile.mkdtemp(prefix="c16_")
@@ -713,7 +766,7 @@ def replay(ctx, rp):
     fx = lambda v: v if isinstance(v, bool) else float.fromhex(v)
     if case.get("kind") in ("factory", "model"):
         ctx.rule = "replay of one recorded %s case" % case["kind"]
-        coq = vp_coq.full_check("C16", ctx, fams=("imp",))
+        coq = checked(ctx)
         tg = ctx.build(harness=("impl_imp",))
         dis = []
         tmp = tempfile.mkdtemp(prefix="c16_")
